@@ -364,6 +364,9 @@ class Executor:
         k = f"{vkey(base)}[{vkey(idx)}]"
         if k in env:
             return env[k]
+        if getattr(self, "keyerror_mode", False) and isinstance(base, Obj) and isinstance(node.ctx, ast.Load) and not isinstance(idx, Lin):
+            if not self.ask_bool(f"haskey:{k}"):
+                raise Stop("raise", Const("KeyError"))
         return Obj(k)
 
     def e_Tuple(self, node, env):
@@ -926,9 +929,17 @@ class Executor:
         self.run(s.body, env)
 
     def s_Try(self, s, env):
-        # the try body is executed; a 'raise' of a class named by a handler transfers there
+        # the try body is executed; a 'raise' of a class named by a handler transfers there.
+        # Inside a try that handles KeyError, a lookup container[key] on an opaque container may
+        # fail: the executor forks on 'haskey:<container>[<key>]'.
+        catches_keyerror = any(h.type is not None and "KeyError" in [chain(e) for e in (h.type.elts if isinstance(h.type, ast.Tuple) else [h.type])] for h in s.handlers)
+        saved = getattr(self, "keyerror_mode", False)
+        self.keyerror_mode = saved or catches_keyerror
         try:
-            self.run(s.body, env)
+            try:
+                self.run(s.body, env)
+            finally:
+                self.keyerror_mode = saved
         except Stop as st:
             if st.kind == "raise" and st.value is not None:
                 for h in s.handlers:
